@@ -175,17 +175,21 @@ pub fn main(args: &crate::Args) {
     let triples: Vec<(&[u8], u32, u32)> = cases.iter().map(|c| (&c.0[..], c.1, c.2)).collect();
     let outcomes = crate::workers::run_cases("C02", &triples, deadline);
     let mut done = 0usize;
+    let mut artefacts: std::collections::BTreeMap<String, u64> = Default::default();
     for (i, o) in outcomes.iter().enumerate() {
         let Some(o) = o else { continue };
         done += 1;
         rep.eval();
         let (bytes, mode, _, name) = &cases[i];
-        let class = if o.starts_with("abort") { "sanitizer-or-abort" } else if o.starts_with("hang") { "hang" } else if o.contains("panic@") { "panic" } else if o.contains("kernel-differs") { "kernel-differs" } else { "clean" };
+        let class = if o.starts_with("msan-artefact") { "msan-artefact-in-safe-code" } else if o.starts_with("abort") { "sanitizer-or-abort" } else if o.starts_with("hang") { "hang" } else if o.contains("panic@") { "panic" } else if o.contains("kernel-differs") { "kernel-differs" } else { "clean" };
         rep.outcome(class);
         if *mode >= 100 {
             rep.nontrivial(fnv(name.as_bytes()));
         } else if !o.starts_with("read:err") {
             rep.nontrivial(fnv(bytes));
+        }
+        if o.starts_with("msan-artefact") {
+            *artefacts.entry(o.chars().take(260).collect()).or_default() += 1;
         }
         let bad = o.starts_with("abort") || o.starts_with("hang") || o.contains("kernel-differs") || (*mode >= 100 && o.contains("panic@"));
         if bad {
@@ -208,6 +212,7 @@ pub fn main(args: &crate::Args) {
     rep.sample(json!({"name": cases[n_valid / 2].3, "stream_bytes": cases[n_valid / 2].0.len()}));
     rep.sample(json!({"name": cases[cases.len() - 1].3}));
     rep.extra.insert("monitor".into(), json!(monitor));
+    rep.extra.insert("msan_reports_discounted_as_safe_code_artefacts".into(), json!(artefacts));
     if let Ok(prev) = std::env::var("VERIF_C02_PREV") {
         if let Ok(t) = std::fs::read_to_string(&prev) {
             if let Ok(v) = serde_json::from_str::<serde_json::Value>(&t) {
@@ -216,6 +221,6 @@ pub fn main(args: &crate::Args) {
         }
     }
     rep.exhaustive = true;
-    rep.assumptions = vec!["a sanitizer only sees executed accesses: exhaustive over the enumerated shapes / inputs / kernels, not over all inputs".into(), "AddressSanitizer does not see reads of uninitialised memory; MemorySanitizer is the thorough-tier monitor for that".into()];
+    rep.assumptions = vec!["a sanitizer only sees executed accesses: exhaustive over the enumerated shapes / inputs / kernels, not over all inputs".into(), "AddressSanitizer does not see reads of uninitialised memory; MemorySanitizer is the monitor for that".into(), "a MemorySanitizer use-of-uninitialized-value report is discounted (and listed in coverage) only if both its use site and its stack origin lie in source files of /repo without any unsafe code: safe Rust cannot read uninitialised memory, such reports come from the optimiser computing on an enum payload before selecting on the discriminant; the case's remaining calls are then not monitored".into()];
     rep.finish();
 }
